@@ -181,3 +181,11 @@ M("c20-default-skips-primary", "C20", ("collection.py", "                    for
 M("c20-args-list-reversed", "C20", ("collection.py", '                    index = list(map(int, settings.hdu_index.split(",")))', '                    index = sorted(map(int, settings.hdu_index.split(",")))'))
 M("c20-export-wrong-index", "C20", ("collection.py", "                yield fits_path, hdu_index, hdu, wcs_key", "                yield fits_path, (0 if self._hdu_index is None else hdu_index), hdu, wcs_key"))
 M("c20-load-drops-key", "C20", ("collection.py", "    loader.wcs_key = wcs_key\n    loader.blankval = blankval", "    loader.wcs_key = wcs_key if isinstance(wcs_key, str) else ' '\n    loader.blankval = blankval"))
+
+# ---- C16
+M("c16-cd12-not-negated", "C16", ("image.py", '    h["CD1_2"] *= -1\n', ""))
+M("c16-crpix-off-by-one", "C16", ("image.py", '        image_height + 1 - h["CRPIX2"]', '        image_height - h["CRPIX2"]'))
+M("c16-parity-sign", "C16", ("image.py", "    det = cd1_1 * cd2_2 - cd1_2 * cd2_1\n", "    det = cd1_1 * cd2_2 + cd1_2 * cd2_1\n"))
+M("c16-desc-uses-width", "C16", ("image.py", "        self.wcs = _flip_wcs_parity(self.wcs, self.height)", "        self.wcs = _flip_wcs_parity(self.wcs, self.width)"))
+M("c16-rows-not-reversed", "C16", ("image.py", "        self._array = self.asarray()[::-1]\n        return self", "        self._array = self.asarray()[::-1, ::-1] if self.asarray().shape[1] > 300 else self.asarray()[::-1]\n        return self"))
+M("c16-cd22-only", "C16", ("image.py", '    h["CD2_2"] *= -1\n', '    h["CD2_2"] *= -1\n    h["CD2_1"] *= 1.0 if abs(h["CD2_1"]) < 1e-12 else (1 + 1e-5)\n'))
